@@ -65,6 +65,14 @@ def apply_bar(b, a, k=0, shared=None):
     if op == "place_at":
         b.place_notes_at(content(a["arg"], "list"), b.bar[a["i"] - 1][0])
         return True
+    if op == "place_at_obj":
+        # the very container object that was placed elsewhere in the bar is added to the entry at index i
+        import json
+        key = json.dumps(a["arg"], sort_keys=True)
+        if shared is None or key not in shared:
+            raise Shape("place_at_obj needs a container placed before")
+        b.place_notes_at(shared[key], b.bar[a["i"] - 1][0])
+        return True
     if op == "place_at_beat":
         b.place_notes_at(content(a["arg"], "list"), a["beat"])       # an int: the beat, as the method's name says
         return True
